@@ -472,10 +472,15 @@ func Coordinate(exe, prop, tier string, seed int64, jobs int) int {
 			os.WriteFile(path, rb, 0o644)
 			if violLines < 10 {
 				fmt.Printf("VIOLATION property=%s replay=%s\n", prop, path)
-				for i, v := range r.Violations {
-					if i >= 3 {
+				shown := 0
+				for _, v := range r.Violations {
+					if ff.match(prop, v.Sig) != nil {
+						continue // attributed to a known finding; not what makes this case a violation
+					}
+					if shown >= 3 {
 						break
 					}
+					shown++
 					msg := v.Msg
 					if len(msg) > 400 {
 						msg = msg[:400] + "..."
